@@ -96,6 +96,10 @@ func scenarioD(H int, withNoPub bool, shapes []int, msgsPerTopic, c int, inFligh
 			}
 			ws[i] = w
 		}
+		// one handler may be registered under the empty name (legal: names only have to be distinct)
+		if vs.Choose(2, 0, "handler 0 is unnamed") == 1 {
+			ws[0].name = ""
+		}
 		if withNoPub {
 			k := vs.Choose(4, 0, "nopub wiring")
 			ws = append(ws, wiring{name: "np", sub: k & 1, topic: (k >> 1) & 1, noPub: true, shape: 1})
@@ -163,7 +167,17 @@ func scenarioD(H int, withNoPub bool, shapes []int, msgsPerTopic, c int, inFligh
 					}
 				})
 			} else {
-				r.AddHandler(w.name, topics[w.topic], subs[w.sub], ptopics[w.ptopic], pubs[w.pub], fn)
+				h := r.AddHandler(w.name, topics[w.topic], subs[w.sub], ptopics[w.ptopic], pubs[w.pub], fn)
+				// a handler-level middleware: it belongs to this handler and must never run around another one
+				h.AddMiddleware(func(next message.HandlerFunc) message.HandlerFunc {
+					return func(m *message.Message) ([]*message.Message, error) {
+						out, err := next(m)
+						if ran, ok := running[vs.Self()]; ok && ran != hi {
+							vs.Fail("routing", "the handler-level middleware of %q ran around the function of %q (wiring %s)", w.name, ws[ran].name, describe(ws))
+						}
+						return out, err
+					}
+				})
 			}
 		}
 		// produced messages carry the producing handler's context when they reach the publisher
